@@ -177,9 +177,9 @@ func Run(tier string) {
 	run.Assume("crypto/rand.Reader is the only randomness source of Encrypt (asserted by C06)")
 	seed := run.Seed
 	rinv := "PrefixOnlyS CleanOnlyIfHonestS ScheduleIndependence ReadAhead NoPanicR TypeOK"
-	run.SpecMustHold("reader-mc", vk.TLCOpts{Module: "StreamMC", Config: mcCfg("reader", 2, 1, run.Pick(5, 7), "{0, 1, 2, 3}", "{}", 0, false, rinv, true), Workers: 16})
+	run.SpecMustHold("reader-mc", vk.TLCOpts{Module: "StreamMC", Config: mcCfg("reader", 2, 1, run.Pick(5, 7), "{0, 1, 2, 3}", "{}", 0, false, rinv, true), Workers: 16, Expect: []string{"RCall", "RFill", "RProbe"}})
 	winv := "HoldbackW FrameShapeW SuccessMeansCompleteW"
-	run.SpecMustHold("writer-mc", vk.TLCOpts{Module: "StreamMC", Config: mcCfg("writer", 2, 1, 0, "{}", "{0, 1, 2, 3, 4, 5}", run.Pick(5, 6), false, winv, true), Workers: 16})
+	run.SpecMustHold("writer-mc", vk.TLCOpts{Module: "StreamMC", Config: mcCfg("writer", 2, 1, 0, "{}", "{0, 1, 2, 3, 4, 5}", run.Pick(5, 6), false, winv, true), Workers: 16, Expect: []string{"WWriteA", "WCloseA"}})
 	if run.Thorough() {
 		run.SpecMustHold("reader-mc-C3", vk.TLCOpts{Module: "StreamMC", Config: mcCfg("reader", 3, 2, 10, "{0, 1, 3, 4}", "{}", 0, false, rinv, true), Workers: 16})
 	}
